@@ -11,34 +11,49 @@ import errno, struct, time, warnings
 import lib, fatimg, fatspec
 
 SPEC_THEOREMS = {
-    'decode_agrees_with_spec': 'on a directory whose live records form standard groups (clean_dir: deleted records, '
-        'labels without pending long-name records, and groups = contiguous standard long-name run or none + short entry '
-        'whose case flags only affect ASCII letters) the (name, alias, raw entry) triples of split_all (groups recs) are '
-        'exactly those of Fat.Spec.decode_dir recs 0 None 0, which reports 0 orphans',
-    'setitem_new_then_getitem': 'setitem of an absent name: groups gain exactly one group at the old end; every case '
-        'variant resolves to the new entry (the given entry with the generated 8.3 name); every other key resolves as '
-        'before; the listing is the old one plus the name',
-    'setitem_existing_updates_in_place': 'setitem of a present key: one poke at the short record, filename/ext/attr2 kept, '
-        'all other records identical, groups/listing unchanged',
-    'delitem_spec': 'the group disappears, all other groups (offset, records) are identical, every other key resolves to '
-        'the same entry; absent key: KeyError and nothing written',
-    'clean_preserves_listing': 'clean keeps the split triples of every group (hence listing and every look-up), leaves no '
-        'record with first byte 0xE5 before the new terminator, zero-fills from the new eof to the old terminator',
-    'root_full_enospc': 'fixed root, new name needing k records: ENOSPC iff n <= e0 + k and n <= e1 + k (e0 = index after '
-        'the last group, e1 = records kept by the compaction; the EOF record is written too); the region then equals '
-        'the compacted one: same listing, same look-ups',
-    'setitem_pokes_back_to_front': 'append pokes have strictly decreasing indices ending at the old end; after any '
-        'proper prefix of them the records before the old end are unchanged and, when the old end is the terminator, '
-        'groups (hence what any reader sees) are unchanged; after all of them the new group is there',
-    'examples': 'vm_compute: a 16-slot root filled to the brim, clean-and-retry, ENOSPC, case variants and alias '
-        'look-ups, the Latin-1 case-flag defect, a crash-point counter-example with deleted records before the terminator',
+    'decode_agrees_with_spec': 'FatDir/ProofsSpec.v. wf_recs (32-byte records) and clean_dir recs = true (deleted records / labels / '
+        'terminator only where no run is pending; every live long-name record extends a valid run: terminal record with '
+        'ordinal 1..31, descending ordinals, first_cluster 0, one checksum; a short record closes a complete run with its '
+        'checksum and a standard payload -- valid UTF-16 up to the first NUL, not ending in U+FFFF, then NUL + U+FFFF padding '
+        '-- or has no run; its 8.3 base is not blank) => split_all (groups recs) = the (d_name, d_sfn, d_raw) triples of '
+        'Fat.Spec.decode_dir recs 0 None 0, same offsets and long-record counts, 0 orphans, listing = map d_name',
+    'setitem_new_then_getitem': 'FatDir/ProofsMain.v. wf_recs, cap_ok, 0 < slots_per_cluster, entry_ok (32 bytes, attr not 0x0F, '
+        'not a label), name: non-empty, name_ok (real code points, no NUL), <= 255 UTF-16 units, not ending in U+FFFF, base '
+        'not empty when stored short-only, U+00E5 not in upper(name.lstrip(".")); name absent (find = Ok None); '
+        '_prefix_entries = Ok recs; succeeds (first attempt fits -- always for a sub-directory -- or fixed root, tidy, fits '
+        'after the compaction) => setitem = (d\', None); view d\' = view d ++ [(name, alias, entry with the generated 8.3 '
+        'name)]; every v with upper v = upper name resolves to it; every key that resolved before resolves to the same '
+        'entry; every other key but the new name / new alias is unchanged; listing d\' = listing d ++ [name]',
+    'setitem_existing_updates_in_place': 'FatDir/ProofsOps.v. wf_recs, cap_ok, entry_ok, find = Ok (Some (g, x)) (any case '
+        'variant of the long name or the 8.3 name) => one poke at g_off g; region = A ++ new :: B where it was A ++ old :: B; '
+        'filename / ext / attr2 of the slot kept, attr and bytes 13.. from the new value; groups and names unchanged',
+    'delitem_spec': 'FatDir/ProofsOps.v. wf_recs, cap_ok. Absent key: (d, Some KeyError), nothing written. Present: groups d\' = '
+        'G1 ++ G2 where groups d = G1 ++ g :: G2 (other groups: same offsets, same records); only the records of the group '
+        'are rewritten (first byte 0xE5); every key that does not hit the deleted entry resolves as before; listing loses '
+        'exactly that element',
+    'clean_preserves_listing': 'FatDir/ProofsClean.v. wf_recs, tidy (no live long-name record is left pending at a deleted '
+        'entry, label, terminator or the end) => view (clean d) = view d, hence getitem / contains / listing / items equal; '
+        'region = kept ++ zeros ++ (old terminator onwards), same length; no kept record starts with 0xE5; eof = |kept|. '
+        'clean_needs_tidy: without tidiness the compaction can attach an orphaned long name to the next entry (Example)',
+    'root_full_enospc': 'FatDir/ProofsMain.v. hypotheses of setitem_new_then_getitem (without succeeds), d_cap = Some n, tidy: '
+        'ENOSPC <-> n <= e0 + k and n <= e1 + k (k records of the name, one EOF record more; e0 = index after the last '
+        'group, e1 = eof of the compaction); then the directory is clean d: same view, listing, getitem, contains; any '
+        'other outcome is success',
+    'setitem_pokes_back_to_front': 'FatDir/ProofsAppend.v. cap_ok, 0 < spc, the append fits => indices of the pokes = rev [e0 .. '
+        'e0 + k]; after any proper non-empty prefix: records before e0 unchanged, groups = old groups ++ extra, and extra = [] '
+        '(same view) when record e0 is the terminator. crash_point_with_trailing_deleted: with deleted records before the '
+        'terminator the new entry is first visible under its 8.3 name (Example)',
+    'examples': 'FatDir/ProofsExamples.v, vm_compute: look-ups by case variants / alias, __contains__ compares the alias exactly, '
+        'update in place, delete + compaction, a 12-slot root filled to the brim (ENOSPC, clean-and-retry, EOF record), '
+        'growth of a sub-directory by 16 slots, agreement with Fat.Spec on a built directory, a long-name record with first '
+        'byte 0 (the two readers differ), the crash point above',
 }
 
 TRUSTED = [
-    'str.upper() is CPython\'s: the model takes upper : list N -> list N as an argument (the runner gets the table of '
-    'all characters of the harness alphabet whose upper case differs); theorems assume it is a per-string function with '
-    'upper (a ++ b) = upper a ++ upper b, invariant under ASCII / Latin-1 lower-casing of Latin-1 text, and never '
-    'producing U+00E5 -- checked here against CPython for every code point',
+    'str.upper() is CPython\'s: the model takes upper : list N -> list N as an argument; the only assumption a theorem '
+    'makes about it is that U+00E5 does not occur in upper(name.lstrip(".")) (checked here: no code point\'s upper() '
+    'contains it). The runner gets upper as a per-character table (sound because CPython\'s upper() is context-free: '
+    'upper(a + b) = upper(a) + upper(b), sampled here on the special-casing characters)',
     'str.lower() on text decoded from iso-8859-1 = FatNames.lower_b (checked here for all 256 bytes)',
     'struct pack / unpack of DirectoryEntry / LongFilenameEntry is the identity on 32 bytes except the pad byte 12 of '
     'a long-name record, which is written as NUL (model: repack); offsets come from Gen/Fat.v',
@@ -46,7 +61,8 @@ TRUSTED = [
     '(i / slots_per_cluster + 1) * slots_per_cluster; write() itself does not zero the cluster it allocates, so on a '
     'volume whose free clusters hold old data the records after the new terminator are that data (invisible to every '
     'reader; the harness volumes have zeroed free clusters); running out of clusters is FatAlloc\'s subject',
-    'warnings raised by _split_entries / _join_lfn_entries are not modelled',
+    'warnings raised by _split_entries / _join_lfn_entries are not modelled; bytes.decode("utf-16le") refuses lone '
+    'surrogates (model: utf16_dec)',
 ]
 
 _COUNT = {}
@@ -83,9 +99,18 @@ def cap_wire(cap):
     return [] if cap is None else [cap]
 
 
-def upper_table(extra=''):
-    chars = set(chr(c) for c in range(0x250)) | set(''.join(NAMES + FFFF_NAMES + WILD)) | set(extra)
-    return [[ord(c), c.upper()] for c in sorted(chars) if c.upper() != c]
+def upper_table():
+    """every code point whose upper case differs from itself, sorted, packed for the runner: code point (3 bytes),
+    length of the upper case (1 byte), its code points (3 bytes each).  Complete, because damaged long-name records
+    can hold any UTF-16 unit and the histories derive keys with lower() / swapcase()."""
+    out = bytearray()
+    for c in range(0x110000):
+        if 0xD800 <= c < 0xE000:
+            continue
+        u = chr(c).upper()
+        if u != chr(c):
+            out += c.to_bytes(3, 'big') + bytes([len(u)]) + b''.join(ord(x).to_bytes(3, 'big') for x in u)
+    return bytes(out)
 
 
 def exc_name(e):
@@ -267,7 +292,7 @@ def k_upper(name):
     base, dot, ext = name.partition('.')
     plain = set('ABCDEFGHIJKLMNOPQRSTUVWXYZ0123456789')
     def part(s, n):
-        return len(s) <= n and (set(s.upper()) <= plain) and s in (s.upper(), s.lower())
+        return len(s) <= n and s.isascii() and (set(s.upper()) <= plain) and s in (s.upper(), s.lower())
     if name and not name.startswith('.') and name.count('.') <= 1 and base and part(base, 8) and part(ext, 3) and (ext or not dot):
         return 1
     u = units_of(name)
@@ -554,7 +579,7 @@ def observations(ctx, R, table):
 def upper_facts(ctx, R, table):
     """what the theorems assume about str.upper() / str.lower(), against CPython for every code point"""
     low = bytes(range(256))
-    got = bytes(R.call('lower', [[], 16, b'', [], low]))
+    got = bytes(R.call('lower', [[], 16, b'', b'', low]))
     want = low.decode('latin-1').lower()
     ctx.case('lower', True, 'upper-facts')
     if len(want) != 256 or got.decode('latin-1') != want:
@@ -562,11 +587,6 @@ def upper_facts(ctx, R, table):
     bad = [c for c in range(0x110000) if not 0xD800 <= c < 0xE000 and '\xe5' in chr(c).upper()]
     if bad:
         _viol(ctx, 'fs.dir/upper-assumption', f'upper() of U+{bad[0]:04X} contains U+00E5', dict(kind='upper'))
-    for c in range(256):
-        ch = chr(c)
-        lb = ch.lower() if ch.isascii() else ch
-        if ch.lower().upper() != ch.upper() or lb.upper() != ch.upper():
-            _viol(ctx, 'fs.dir/upper-assumption', f'upper() is not invariant under lower-casing U+{c:04X}', dict(kind='upper'))
     rng = ctx.rng
     pool = [chr(c) for c in (0xDF, 0x149, 0x1F0, 0x390, 0x3C2, 0x3C3, 0x3A3, 0x130, 0x131, 0xFB01, 0x1E9E, 0x69, 0x49, 0x307, 0x345, 0x1F80)]
     for _ in range(300):
